@@ -161,6 +161,24 @@ def run_case(c):
             e = float(np.abs(Db[k_] - np.array(dm.dynamical_matrix)).max())
             if not e <= 1e-10 * max(fscale, dds):
                 bad("batch_vs_single", "request of %d q-points: entry %d differs from the single-q answer by %.3e" % (len(qb), k_, e), entry=k_, n_qpoints=len(qb))
+    # the same kind of request WITH a direction: the zone-centre entries get the limit along n (whatever q-point the same thread handled just
+    # before), all other entries are what they are without a direction
+    nd = dirs[int(rng.integers(len(dirs)))]
+    Tn = nac_term(rec @ nd, Z, eps, V, f, m)
+    ph.run_qpoints(relayout(np.array(qb), lrng)[0], with_dynamical_matrices=True, nac_q_direction=nd)
+    Dbn = np.array(ph.get_qpoints_dict()["dynamical_matrices"])
+    toln = max((1e-9 if c["method"] == "wang" else 1e-7) * max(np.abs(Tn).max(), dds * 1e-3), 1e-13 * np.abs(D0).max())
+    for k_, q_ in enumerate(qb):
+        obs["n_batch_with_direction"] = obs.get("n_batch_with_direction", 0) + 1
+        if not np.any(q_):
+            e = float(np.abs(Dbn[k_] - D0 - Tn).max())
+            if not e <= toln:
+                bad("gamma_limit_in_batch", "request of %d q-points with nac_q_direction=%s: entry %d (the zone centre, preceded by q=%s) differs from D0 + formula by %.3e (tol %.3e, term %.3e)" % (
+                    len(qb), np.round(nd, 4).tolist(), k_, np.round(qb[k_ - 1], 3).tolist() if k_ else None, e, toln, np.abs(Tn).max()), entry=k_, n_qpoints=len(qb))
+        else:
+            e = float(np.abs(Dbn[k_] - Db[k_]).max())
+            if not e <= 1e-10 * max(fscale, dds):
+                bad("batch_vs_single", "request of %d q-points: entry %d (q != 0) changes by %.3e when a direction for the zone centre is given" % (len(qb), k_, e), entry=k_, n_qpoints=len(qb))
     # commensurate q != 0
     M = np.rint(sc.cell @ np.linalg.inv(pr.cell)).astype(int)
     comm = [q for q in commensurate_q(M) if np.abs(q - np.rint(q)).max() > 1e-8]
